@@ -38,7 +38,7 @@ CHECKS = {
    text="Proved (unbounded, with loop invariants): split_blocks concatenates back to the list with blocks of 1..limit entries and terminates for limit >= 1; get_block removes exactly the returned block; enqueue_missing makes scheduled the union and enqueues each new item exactly once. Static + run-time contract: _lookup_contributors stores the authors of the titles it requested. get_contributors/merge_data/get_authors store exactly the reported non-bot names and the anonymous count for any chunking of the answer. handle_new_basepath loses no (title, url) registration across its greenlet switch. Closure and termination of the greenlet fan-out are NOT covered.",
    note="Requires api_request_limit >= 1. No stand-in for the orchestration (would be a simulation: another family)."),
  "C12": dict(cat="proof", tech="configuration and Unicode lemmas decided exactly on every run" + B, ref="3/C12",
-   text="Decided exactly: the namespace tables of all 12 bundled sites are consistent (keys = ids, names canonical, lookups unambiguous) and first-letter capitalisation is idempotent for every code point - the premises of idempotence. The contract of splitname itself (canonical form, namespace number, idempotence, spelling invariance) is checked exhaustively on enumerated titles only: the SMT proof over strings was not built.",
+   text="Decided exactly: the namespace tables of all 12 bundled sites are consistent (keys = ids, names canonical, lookups unambiguous) and first-letter capitalisation is idempotent for every code point - the premises of idempotence. Proved for all titles on every bundled site table: splitname never raises, reports a namespace of the site, full = local name + ':' + partial, default / main namespace without a prefix. The rest of the contract (canonical spelling, idempotence, spelling invariance) is checked exhaustively on enumerated titles only.",
    note="Domain precondition: titles that start with ':' after the optional leading colon, or are empty, are not page titles."),
  "C13": dict(cat="proof", tech=T + "; static obligations on the serialisation call sites" + B, ref="3/C13",
    text="Proved: MetabookObject._json returns type + exactly the public non-None attributes; static: sort_keys dump, checksum = sha256(dumps), object_hook table covers every metabook class, per-instance deep copy of defaults, reads-frame of make_collection_id. Round trip / fixed point / id invariance on generated metabooks are bounded.",
